@@ -1011,8 +1011,6 @@ class Interp:
                     argnodes.append(a)
                     star.append(False)
             kwnames = [k.arg if k.arg is not None else "**" for k in node.keywords]
-            if kwnames.count("**") > 1:
-                raise Unsupported("several **kwargs in call")
             for s2, r2 in self.eval_list(argnodes + [k.value for k in node.keywords], s1):
                 if r2[0] != "ok":
                     yield s2, r2
@@ -1028,7 +1026,19 @@ class Interp:
                         pos.extend(const(x) for x in v.d)
                     else:
                         raise Unsupported("*args of symbolic length")
-                kw = dict(zip(kwnames, vals[len(argnodes):]))
+                kw = {}
+                for kn, kv in zip(kwnames, vals[len(argnodes):]):
+                    if kn == "**" and kv.kind == "ref" and isinstance(s2.heap[kv.d], HDict) and s2.heap[kv.d].pairs is not None \
+                            and s2.heap[kv.d].fresh and all(k_.kind == "const" and type(k_.d) is str for k_, _ in s2.heap[kv.d].pairs):
+                        # `**{'name': value}` with a dict display: the same as the keyword argument name=value
+                        for k_, v_ in s2.heap[kv.d].pairs:
+                            if k_.d in kw:
+                                raise Unsupported("keyword argument given twice")
+                            kw[k_.d] = v_
+                        continue
+                    if kn in kw:
+                        raise Unsupported("several **kwargs in call" if kn == "**" else "keyword argument given twice")
+                    kw[kn] = kv
                 yield from self.call(s2, f, pos, kw, node=node)
 
     def e_ListComp(self, node, st):
@@ -1123,6 +1133,23 @@ class Interp:
                     and not kwargs and args[0].kind in ("gen", "iter", "ref"):
                 # sep.join(<producer>): drain the producer (statically known length), then apply on the element tuple
                 from .builtins_theory import iterate_concrete
+                if args[0].kind == "gen":
+                    for s1, r1 in args[0].d(st):
+                        if r1[0] != "ok":
+                            yield s1, r1
+                        elif isinstance(r1[1], V) and r1[1].shadow is not None:
+                            yield from self.call(s1, f, [r1[1]], {})        # produced per cell by CPython itself
+                        elif isinstance(r1[1], tuple) and r1[1][0] == "items":
+                            yield from self.call(s1, f, [self.tuple_value(list(r1[1][1]))], {})
+                        elif isinstance(r1[1], V):
+                            for s2, r2 in iterate_concrete(self, s1, r1[1]):
+                                if r2[0] != "ok":
+                                    yield s2, r2
+                                else:
+                                    yield from self.call(s2, f, [self.tuple_value(list(r2[1]))], {})
+                        else:
+                            raise Unsupported("join over a producer of statically unknown length")
+                    return
                 for s1, r1 in iterate_concrete(self, st, args[0]):
                     if r1[0] != "ok":
                         yield s1, r1
@@ -1215,7 +1242,15 @@ class Interp:
         rel = code.co_filename[len(root) + 1:]
         tree, _, _ = extract.module_ast(rel)
         best = None
+        if fn.__name__ == "<lambda>":
+            # a lambda of the repository: identified by its line when it is the only one starting there
+            cands = [n for n in ast.walk(tree) if isinstance(n, ast.Lambda) and n.lineno == code.co_firstlineno]
+            if len(cands) != 1 or len(cands[0].args.args) + len(cands[0].args.posonlyargs) != code.co_argcount:
+                return None
+            best = cands[0]
         for n in ast.walk(tree):
+            if best is not None:
+                break
             if isinstance(n, ast.FunctionDef) and n.name == fn.__name__:
                 first = min([n.lineno] + [d.lineno for d in n.decorator_list])
                 if first == code.co_firstlineno or n.lineno == code.co_firstlineno:
@@ -1233,7 +1268,7 @@ class Interp:
         else:
             env = {}
         env["$globals"] = fn.__globals__
-        is_gen = any(isinstance(x, (ast.Yield, ast.YieldFrom)) for x in self.walk_own(best))
+        is_gen = not isinstance(best, ast.Lambda) and any(isinstance(x, (ast.Yield, ast.YieldFrom)) for x in self.walk_own(best))
         self.executed.add((rel, fn.__qualname__, best.lineno))
         return Closure(best, env, fn.__qualname__, None, is_gen), selfarg
 
